@@ -211,7 +211,7 @@ Proof.
   pose proof HQS as [Hw Hd Hmode Hn Hconn Hgos HQ Hlast Hfr Hkinds Hpe Hsok].
   destruct Hw as (Hw1 & Hw2 & Hw3). destruct Hmode as (Hrun & Hsp & Hdf).
   destruct Hn as (Hn1 & Hn2 & Hn3 & Hn4). destruct Hfr as (HfL & Hfc & Hfw).
-  destruct HJS as [Jw Jmp Jsp Jfr Jcur Jcells].
+  destruct HJS as [Jw Jmp Jsp Jfr Jcur Jcells]. rewrite (Z.max_r 1 w) in Hfw by lia.
   set (c := s_current (ps_sync p)) in *. set (L := s_last_confirmed (ps_sync p)) in *. set (S := s_last_saved (ps_sync p)) in *.
   pose proof (QsI_length _ _ _ _ HQ) as Hlq.
   unfold check_simulation_consistency. rewrite Hdf.
@@ -256,7 +256,7 @@ Proof.
   pose proof HQS as [Hw Hd Hmode Hn Hconn Hgos HQ Hlast Hfr Hkinds Hpe Hsok].
   destruct Hw as (Hw1 & Hw2 & Hw3). destruct Hmode as (Hrun & Hsp & Hdf).
   destruct Hn as (Hn1 & Hn2 & Hn3 & Hn4). destruct Hfr as (HfL & Hfc & Hfw).
-  destruct HJS as [Jw Jmp Jsp Jfr Jcur Jcells].
+  destruct HJS as [Jw Jmp Jsp Jfr Jcur Jcells]. rewrite (Z.max_r 1 w) in Hfw by lia.
   set (c := s_current (ps_sync p)) in *. set (L := s_last_confirmed (ps_sync p)) in *. set (S := s_last_saved (ps_sync p)) in *.
   pose proof (QsI_length _ _ _ _ HQ) as Hlq.
   assert (HScf : S <= Z.max 0 cf).
@@ -321,6 +321,7 @@ Proof.
   assert (Hgoal : exists p' o r gs', advance predict p = Ok (p', o, r) /\ QSg true w d p' gs' /\ SX p' gs').
   { pose proof HQS as [Hw Hd Hmode Hn Hconn Hgos HQ Hlast Hfr Hkinds Hpe Hsok].
     destruct Hw as (Hw1 & Hw2 & Hw3). destruct Hmode as (Hrun & Hsp & Hdf). destruct Hfr as (HfL & Hfc & Hfw).
+    pose proof (js_w _ _ _ HJS) as Hw1p. rewrite (Z.max_r 1 w) in Hfw by lia.
     unfold advance. rewrite Hrun. cbn [negb].
     destruct (forallb _ (local_handles p)) eqn:Efa; cbn [negb].
     2:{ exists p, out0, AInvalidRequest, gs. split; [reflexivity|]. split; [exact HQS|exact HSX]. }
